@@ -54,6 +54,11 @@ type target struct {
 	// calls = decoder invocations per run (scales the allocation bound); allocPerByte overrides the 2000 bytes/byte allowance.
 	calls        int
 	allocPerByte int
+	// allocBound / cpuBound replace the default bounds (by input length) for targets whose input only describes a stream.
+	allocBound func(in []byte) uint64
+	cpuBound   func(in []byte) int64
+	// fixedN = exact number of inputs in the quick / thorough tier (instead of tier count x weight); one chunk.
+	fixedN [2]int
 	// noOK marks targets whose decoder has no success outcome to demand (none today).
 	noOK bool
 }
@@ -108,6 +113,7 @@ type tstats struct {
 	OK       int64  `json:"ok"`
 	Errors   int64  `json:"error"`
 	Panics   int64  `json:"panic"`
+	Oracle   int64  `json:"target_oracle_violation"`
 	Fatal    int64  `json:"fatal_exit"`
 	CPUStop  int64  `json:"cpu_limit_stops"`
 	MaxAlloc uint64 `json:"max_alloc_bytes"`
@@ -217,6 +223,11 @@ func Run(r *ev.Run) {
 		n := int(float64(per) * t.weight)
 		if n < 50 {
 			n = 50
+		}
+		if t.fixedN[0] > 0 {
+			n = r.Pick(t.fixedN[0], t.fixedN[1])
+			jobs = append(jobs, job{t, 0, n})
+			continue
 		}
 		for c := 0; n > 0; c++ {
 			k := chunk
@@ -423,7 +434,7 @@ func (m *monitor) runChunk(t *target, chunk, n int) {
 		}
 		k := last.started
 		switch {
-		case last.cpuStop && last.cpuAlloc > t.allocLimit(len(ins[k].data)):
+		case last.cpuStop && last.cpuAlloc > t.allocLimitOf(ins[k].data):
 			cpuStops++
 			// the CPU went into touching an allocation beyond the bound: an allocation finding, not a CPU one
 			_, fn, _ := classifyFatal("goroutine 1 [running]:\n" + afterGoroutine1(string(stderrB)))
@@ -434,7 +445,7 @@ func (m *monitor) runChunk(t *target, chunk, n int) {
 			m.st(t).CPUStop++
 			m.mu.Unlock()
 			r.Violation(fmt.Sprintf("alloc target=%s site=%s", t.name, fn), m.detail(t, chunk, k, ins[k], map[string]interface{}{
-				"allocated_bytes_when_stopped": last.cpuAlloc, "cpu_us_when_stopped": last.cpuUsed, "bound_bytes": t.allocLimit(len(ins[k].data)), "stacks": tail(string(stderrB), 4000)}))
+				"allocated_bytes_when_stopped": last.cpuAlloc, "cpu_us_when_stopped": last.cpuUsed, "bound_bytes": t.allocLimitOf(ins[k].data), "stacks": tail(string(stderrB), 4000)}))
 			r.SetAdd("alloc_sites", fn)
 		case last.cpuStop:
 			cpuStops++
@@ -512,7 +523,7 @@ func (m *monitor) recheckOOM(t *target, chunk, k int, ins []input, fn string) st
 	stderrB, _ := os.ReadFile(e)
 	os.Remove(j)
 	os.Remove(e)
-	bound := t.allocLimit(len(ins[k].data))
+	bound := t.allocLimitOf(ins[k].data)
 	for _, rec := range jp.recs {
 		if rec.idx != 1 {
 			continue
@@ -744,8 +755,18 @@ func (m *monitor) consume(t *target, chunk int, ins []input, jp jparsed) jlast {
 			outcome = "err:" + c
 		case 'p':
 			s.Panics++
+		case 'v':
+			s.Oracle++
 		}
 		m.mu.Unlock()
+		if rec.kind == 'v' {
+			var oe oracleErr
+			if b, err := base64.StdEncoding.DecodeString(rec.payload); err == nil {
+				json.Unmarshal(b, &oe)
+			}
+			outcome = "oracle:" + oe.Class
+			r.Violation(fmt.Sprintf("%s target=%s class=%s", oe.Kind, t.name, oe.Class), m.detail(t, chunk, rec.idx, in, map[string]interface{}{"observed": oe.Detail}))
+		}
 		if rec.kind == 'p' {
 			var pi panicInfo
 			if b, err := base64.StdEncoding.DecodeString(rec.payload); err == nil {
@@ -766,7 +787,7 @@ func (m *monitor) consume(t *target, chunk int, ins []input, jp jparsed) jlast {
 		outcomeAlloc := false
 		_ = outcomeAlloc
 		r.Distinct(t.name + "|" + outcome + "|" + in.class)
-		if rec.alloc > t.allocLimit(len(in.data)) && rec.kind != 'p' {
+		if rec.alloc > t.allocLimitOf(in.data) && rec.kind != 'p' {
 			// the child repeated the call between two memory-profile snapshots ("A" record)
 			if a, ok := jp.allocAt[rec.idx]; ok {
 				p := strings.SplitN(a, " ", 2)
@@ -775,9 +796,9 @@ func (m *monitor) consume(t *target, chunk int, ins []input, jp jparsed) jlast {
 				if len(p) == 2 {
 					site = p[1]
 				}
-				if alloc2 > t.allocLimit(len(in.data)) {
+				if alloc2 > t.allocLimitOf(in.data) {
 					r.Violation(fmt.Sprintf("alloc target=%s site=%s", t.name, site), m.detail(t, chunk, rec.idx, in, map[string]interface{}{
-						"allocated_bytes": rec.alloc, "allocated_bytes_on_repeat": alloc2, "bound_bytes": t.allocLimit(len(in.data))}))
+						"allocated_bytes": rec.alloc, "allocated_bytes_on_repeat": alloc2, "bound_bytes": t.allocLimitOf(in.data)}))
 					r.SetAdd("alloc_sites", site)
 					outcomeAlloc = true
 				} else {
@@ -787,10 +808,10 @@ func (m *monitor) consume(t *target, chunk int, ins []input, jp jparsed) jlast {
 				r.Count("alloc_over_bound_without_repeat_record", 1)
 			}
 		}
-		if rec.cpu > t.cpuLimit(len(in.data)) && rec.alloc <= t.allocLimit(len(in.data)) {
+		if rec.cpu > t.cpuLimitOf(in.data) && rec.alloc <= t.allocLimitOf(in.data) {
 			m.addSuspect(suspect{kind: "cpu", t: t, in: in, warm: ins[0], chunk: chunk, idx: rec.idx, seen: uint64(rec.cpu)})
 		}
-		kind := map[byte]string{'o': "ok", 'e': "error", 'p': "panic"}[rec.kind]
+		kind := map[byte]string{'o': "ok", 'e': "error", 'p': "panic", 'v': "oracle"}[rec.kind]
 		r.SampleN("s:"+t.group+":"+kind, 1, map[string]interface{}{"target": t.name, "outcome": outcome, "construction_class": in.class, "construction_detail": in.detail,
 			"input": ev.Hex(in.data), "alloc_bytes": rec.alloc, "cpu_us": rec.cpu})
 	}
@@ -858,7 +879,7 @@ func (m *monitor) confirmSuspects() {
 					if rec.idx != 1 {
 						continue
 					}
-					if s.kind == "alloc" && rec.alloc > s.t.allocLimit(len(s.in.data)) {
+					if s.kind == "alloc" && rec.alloc > s.t.allocLimitOf(s.in.data) {
 						hit = true
 						measured = append(measured, rec.alloc)
 						if a, ok := jp.allocAt[1]; ok {
@@ -867,7 +888,7 @@ func (m *monitor) confirmSuspects() {
 							}
 						}
 					}
-					if s.kind == "cpu" && rec.cpu > s.t.cpuLimit(len(s.in.data)) {
+					if s.kind == "cpu" && rec.cpu > s.t.cpuLimitOf(s.in.data) {
 						hit = true
 						measured = append(measured, uint64(rec.cpu))
 					}
@@ -881,7 +902,7 @@ func (m *monitor) confirmSuspects() {
 				}
 			}
 			det := m.detail(s.t, s.chunk, s.idx, s.in, map[string]interface{}{"first_measurement": s.seen, "stacks_at_cpu_limit": s.note, "isolated_measurements": measured, "bound": map[string]interface{}{
-				"alloc_bytes": s.t.allocLimit(len(s.in.data)), "cpu_us": s.t.cpuLimit(len(s.in.data))}})
+				"alloc_bytes": s.t.allocLimitOf(s.in.data), "cpu_us": s.t.cpuLimitOf(s.in.data)}})
 			switch {
 			case s.kind == "alloc" && confirmed == 1:
 				r.Violation(fmt.Sprintf("alloc target=%s site=%s", s.t.name, site), det)
